@@ -155,6 +155,17 @@ let replay () =
   iter_lines (fun l ->
     match split_tab l with
     | "B" :: _ :: cfg :: _ -> st := Some (init2 (parse_config cfg))
+    | "A" :: idx :: n :: lbl :: _ when String.length lbl > 8 && String.sub lbl 0 8 = "stutter " ->
+      (* configuration wire=1: WriteMsg returns and the sender reaches its "written" yield: no model step, the
+         actor must be in the state "written, not yet returned" *)
+      (match !st with
+       | None -> Printf.printf "M\t%s\t%s\tREJECTED-EARLIER\n" idx n
+       | Some s ->
+         let a = String.sub lbl 8 (String.length lbl - 8) in
+         let ok = if a = "rx" then (match s.base.rx with RAckWritten _ -> true | _ -> false)
+           else (match (getc_i (int_of_string (String.sub a 1 (String.length a - 1))) s.base).c_pc with CWritten _ -> true | _ -> false) in
+         if ok then Printf.printf "M\t%s\t%s\t%s@written\n" idx n a
+         else (Printf.printf "M\t%s\t%s\tREJECT:not-after-a-write\n" idx n; st := None))
     | "A" :: idx :: n :: lbl :: _ ->
       (match !st with
        | None -> Printf.printf "M\t%s\t%s\tREJECTED-EARLIER\n" idx n
